@@ -52,7 +52,10 @@ func NewViaModifier(requestedBy string) *ViaModifier {
 func (m *ViaModifier) ModifyRequest(req *http.Request) error {
 	via := fmt.Sprintf("%d.%d %s-%s", req.ProtoMajor, req.ProtoMinor, m.requestedBy, m.boundary)
 
-	if v := req.Header.Get("Via"); v != "" {
+	// A message may carry several Via header lines; together they form one
+	// list (RFC 7230, section 3.2.2), so all of them are searched for a loop
+	// and kept in front of this proxy's entry.
+	if v := strings.Join(req.Header["Via"], ", "); v != "" {
 		if m.hasLoop(v) {
 			err := fmt.Errorf("via: detected request loop, header contains %s", via)
 
